@@ -15,7 +15,7 @@ RULE = (
     "straddling two references) in 1-D/2-D/3-D, tiny enumerated maps, generated split/noise families; every threshold "
     "class of the single-candidate scores. Non-trivial = some reference overlapped by at least two predictions; distinct "
     "= hash of (arrays, metric, threshold)."
-    ' Further families: long-lived matchers on buffers refilled in place, mixed layouts, fragments with far-away tails in volumes up to 2^21 voxels, 20..40 fragments with widely spread labels (decided exactly for IoU/Dice by the ascending inside/outside ratio order).'
+    ' Further families: long-lived matchers on buffers refilled in place, mixed layouts, fragments with far-away tails in volumes up to 2^21 voxels, 20..40 fragments with widely spread labels (decided exactly for IoU/Dice by the ascending inside/outside ratio order), label values whose pair codes sit at 2^8 / 2^16 / 2^32. The oracle uses the metric and threshold the call configured, not what the matcher object stores.'
 )
 ASSUMPTIONS = [
     "the order in which predictions were added to a reference is the insertion order of the returned label map",
@@ -42,6 +42,8 @@ def cases(tier, seed):
         yield {"fam": "tails", "i": i}
     for i in range(12 if tier == "quick" else 96):
         yield {"fam": "manyfrag", "i": i}
+    for i in range(180 if tier == "quick" else 1800):
+        yield {"fam": "paircode", "i": i}
 
 
 def setup(ctx):
@@ -131,6 +133,23 @@ def run(case, ctx):
             except Exception:  # noqa: BLE001  (recorded by the monitor)
                 pass
         ctx.nontrivial("manyfrag", i)
+        return
+    if fam == "paircode":
+        # label values whose products / pair codes sit at 2^8, 2^16, 2^32: the big-labelled prediction is the best fragment of
+        # its reference, a small-labelled one-voxel fragment completes it
+        pred, refa = gen.paircode_boundary_pair(ctx.seed, i)
+        used = set(int(x) for x in np.unique(pred))
+        free = next(x for x in (5, 6, 7, 8, 9) if x not in used)
+        pred[(0, 2) if pred.ndim == 2 else (2,)] = free
+        ctx.count("f:C14.paircode_boundary")
+        for metric, thr in (("IOU", 0.1), ("DSC", 0.25), ("IOU", 0.5)):
+            ctx.count("evaluations")
+            try:
+                with pan.quiet():
+                    pan.make_matcher({"kind": "merge", "metric": metric, "thr": thr}).match_instances(UnmatchedInstancePair(pred.copy(), refa.copy()))
+            except Exception:  # noqa: BLE001  (recorded by the monitor)
+                pass
+        ctx.nontrivial("paircode", gen.arr_key(pred, refa))
         return
     if fam == "tails":
         # fragments with far-away tails, in small volumes and in volumes beyond 2^18 / 2^20 voxels: the union has to be
